@@ -253,6 +253,46 @@ def identity_failures(ts):
     return bad
 
 
+def closure_failures(ts, probe_ctor=True):
+    """C11's statement read on any type system through the public API: for every type, all_features lists each name once
+    and is exactly the own features (`features`) of the type and of all its ancestors (`supertype` chain), the nearest
+    definition of a name standing for it; get_feature agrees; the constructor accepts exactly those names."""
+    bad = []
+    for t in ts.get_types(built_in=True):
+        listed = [(f.name, f.rangeType.name, f.elementType.name if f.elementType is not None else None) for f in t.all_features]
+        names = [r[0] for r in listed]
+        dup = sorted({n for n in names if names.count(n) > 1})
+        if dup:
+            bad.append(f"{t.name} lists feature {dup[0]} more than once: {[r for r in listed if r[0] == dup[0]]}")
+            continue
+        want = {}
+        cur, guard = t, 0
+        while cur is not None and guard < 200:
+            for f in cur.features:
+                want.setdefault(f.name, (f.name, f.rangeType.name, f.elementType.name if f.elementType is not None else None))
+            cur, guard = cur.supertype, guard + 1
+        if sorted(want.values(), key=str) != sorted(listed, key=str):
+            miss = sorted(set(want) - set(names))
+            extra = sorted(set(names) - set(want))
+            diff = [(want[n], r) for r in listed for n in [r[0]] if n in want and want[n] != r]
+            bad.append(f"{t.name}: all_features is not own + ancestors': missing {miss[:3]}, unexpected {extra[:3]}, differing {diff[:2]}")
+            continue
+        for n in names:
+            g = t.get_feature(n)
+            if g is None or g.name != n or g.rangeType.name != want[n][1]:
+                bad.append(f"{t.name}.get_feature({n}) does not return the listed definition")
+        if probe_ctor and t.name not in BUILTIN_NAMES:
+            for n in names + ["nope__"]:
+                try:
+                    t(**{n: None})
+                    ok = True
+                except TypeError:
+                    ok = False
+                if ok != (n in want):
+                    bad.append(f"{t.name}({n}=...) {'accepted' if ok else 'rejected'}")
+    return bad
+
+
 # ---------------------------------------------------------------------------------------------- Gallina rendering
 def gostr(s):
     return gopt(s, gstr)
